@@ -353,6 +353,7 @@ func c14(run *ev.Run) int {
 		fmt.Fprintf(os.Stderr, "progress: injected %s done at %s\n", c.key(), time.Now().Format("15:04:05.000"))
 	}
 	c14ReadLimit(run, srv)
+	c14DoFails(run)
 	run.Set("distinct_interleaving_signatures", len(signatures))
 	run.Count("interleaving.signatures", int64(len(signatures)))
 	serverPanicCheck(run, srv, "c14")
@@ -770,4 +771,73 @@ func c14ReadLimit(run *ev.Run, srv *svc.Server) {
 	}
 	wg.Wait()
 	c14Census(run, "c14/readlimit/census", []string{"c14/readlimit"})
+}
+
+// c14DoFails: the HTTP client fails before there is any response (connection
+// refused, TLS failure, a custom HTTPClient returning an error), possibly after
+// it has read part of the request body. The client program still closes both
+// sides; every call returns, and nothing of the library stays behind while the
+// caller's context is still alive.
+func c14DoFails(run *ev.Run) {
+	type prog struct {
+		kind svc.Kind
+		ops  []string
+	}
+	progs := []prog{
+		{svc.Bidi, []string{"S", "CR", "Rall", "CP"}},
+		{svc.Bidi, []string{"S", "R", "CR", "CP"}},
+		{svc.Bidi, []string{"CR", "CP"}},
+		{svc.Bidi, []string{"S", "S", "CP"}},
+		{svc.ServerStream, []string{"CALL", "Rall", "CP"}},
+		{svc.ClientStream, []string{"S", "CAR"}},
+		{svc.Unary, []string{"CALL"}},
+	}
+	var keys []string
+	for _, p := range svc.Protocols {
+		for _, pr := range progs {
+			for _, reads := range []int{0, 1} { // (a transport that waits for more of an open request stream than the program sends would be a harness deadlock)
+				key := fmt.Sprintf("c14/do-fails/%s/%s/client=%s/reads=%d", p, pr.kind, strings.Join(pr.ops, ","), reads)
+				if !run.Want(key) {
+					continue
+				}
+				keys = append(keys, key)
+				ft := &failingTransport{reads: reads, chunk: 7}
+				cs := svc.NewClientSet(ft, "http://verif.local", svc.ProtoOpts(p, "proto")...)
+				ctx, cancel := context.WithCancel(context.Background())
+				sd := &scripted{cs: cs, kind: pr.kind, callID: "none", ctx: ctx, cancel: cancel, timeout: 15 * time.Second, handlerDone: make(chan struct{})}
+				cr := sd.run(pr.ops)
+				run.Count("cases", 1)
+				run.Count("do_fails.cases", 1)
+				run.Eval(fmt.Sprintf("do-fails|%s|%s|%s|reads=%d", p, pr.kind, strings.Join(pr.ops, ","), reads))
+				if cr.Slow {
+					cancel()
+					continue
+				}
+				detail := map[string]any{"case": key, "ops": describeOps(cr)}
+				hung := false
+				for _, o := range cr.Ops {
+					run.Count("ops.returned", 1)
+					if !o.Returned {
+						detail["goroutines"] = trunc(o.Dump, 20000)
+						run.Violation(key+"/hang", fmt.Sprintf("client operation %s did not return after the HTTP client had failed", o.Op), detail)
+						hung = true
+						break
+					}
+					if o.Err != nil && !errors.Is(o.Err, io.EOF) {
+						var ce *connect.Error
+						if !errors.As(o.Err, &ce) || ce.Code() == 0 {
+							run.Violation(key+"/uncoded", fmt.Sprintf("operation %s returned an uncoded error: %v", o.Op, o.Err), detail)
+							break
+						}
+					}
+				}
+				if hung {
+					cancel()
+					continue
+				}
+				c14KeepAlive(cancel) // the caller's context outlives the call
+			}
+		}
+	}
+	c14Census(run, "c14/do-fails/census", keys)
 }
